@@ -220,6 +220,10 @@ pub fn pinned(prop: &str) -> Vec<SProg> {
             v.push(sp(vec![vec![DropRx, Join(1)], vec![Send(11)]]));
             v.push(sp(vec![vec![Send(1), DropRx, Send(2), Join(1)], vec![Send(11), Send(12)]]));
             v.push(sp(vec![vec![Recv, DropRx, Join(1), Join(2)], vec![Send(11)], vec![Send(21)]]));
+            // the drain in the receiver's destructor obtains every queued message: each of their sends happens-before it
+            // (the relaxed flag only tells the owner that the second sender's message is queued; it orders nothing)
+            v.push(sp(vec![vec![RLoad(0), SkipUnlessLast(1, 2), DropRx, CellR(0), Join(1), Join(2)], vec![Send(11)], vec![CellW(0), Send(21), RStore(0, 1)]]));
+            v.push(sp(vec![vec![RLoad(0), SkipUnlessLast(1, 2), DropRx, CellW(0), Join(1)], vec![Send(11), CellR(0), Send(12), RStore(0, 1)]]));
             if prop == "C10" {
                 return v;
             }
